@@ -167,6 +167,12 @@ impl Checksum {
 //@ contract
     ensures r == cksum_of(self.0),   //# complement_with_nonzero_zero [C18]
 //@ end
+
+//@ item sim/elvis-core/src/protocols/utility.rs :: impl Checksum / fn matches id=Checksum.matches
+//@ contract
+    // a received field is accepted when it is what a conforming sender emits for this sum - in either representation of zero
+    ensures r == (cksum_of(self.0) == field || (cksum_of(self.0) == 0xffff && field == 0)),   //# accepts_both_zero_representations [C18]
+//@ end
 }
 
 } // verus!
